@@ -18,7 +18,8 @@
 (***************************************************************************)
 EXTENDS Naturals, Sequences, FiniteSets, TLC, Json
 
-CONSTANTS DevsOn      \* deviations of the code as it is (subset of AllDiscDevs)
+CONSTANTS DevsOn,     \* deviations of the code as it is (subset of AllDiscDevs)
+          Deep        \* thorough tier: every ignored name as an ancestor / as the root's own name, more exclude sets
 
 AllDiscDevs == {"skip_applies_to_absolute_path", "root_dir_name_filtered", "third_party_by_substring"}
 \*   third_party_by_substring  analyzer.rs:453 a file is third-party iff its ABSOLUTE path contains the
@@ -44,10 +45,16 @@ Paths == { [dirs |-> d, file |-> f] : d \in DirSeqs, f \in FileAlphabet }
 
 \* exclude patterns (glob crate semantics, root-relative): "pkg/**" and "**/test_a.py"
 ExcludeSets == { {}, {"pkg/**"}, {"**/test_a.py"}, {"pkg/**", "**/test_a.py"}, {"**/pkg/**"} }
+               \cup (IF Deep THEN { {"tests/**"}, {"**/conftest.py"}, {"pkg/tests/**"}, {"**/tests/**", "pkg/**"}, {"pkg_x/**"} } ELSE {})
 Matches(pat, p) ==
     CASE pat = "pkg/**" -> Len(p.dirs) >= 1 /\ p.dirs[1] = "pkg"
       [] pat = "**/test_a.py" -> p.file = "test_a.py"
       [] pat = "**/pkg/**" -> \E i \in 1..Len(p.dirs) : p.dirs[i] = "pkg"
+      [] pat = "tests/**" -> Len(p.dirs) >= 1 /\ p.dirs[1] = "tests"
+      [] pat = "pkg_x/**" -> Len(p.dirs) >= 1 /\ p.dirs[1] = "pkg_x"
+      [] pat = "**/conftest.py" -> p.file = "conftest.py"
+      [] pat = "pkg/tests/**" -> Len(p.dirs) >= 2 /\ p.dirs[1] = "pkg" /\ p.dirs[2] = "tests"
+      [] pat = "**/tests/**" -> \E i \in 1..Len(p.dirs) : p.dirs[i] = "tests"
 Excluded(p, ex) == \E pat \in ex : Matches(pat, p)
 
 \* where the root lives: components of the absolute path ABOVE the root, and the root's own name
@@ -59,6 +66,10 @@ RootLocs == { [above |-> <<"plain">>, name |-> "ws"],
               [above |-> <<".cache">>, name |-> "ws"],
               [above |-> <<"my-site-packages-x">>, name |-> "ws"],
               [above |-> <<"plain2">>, name |-> "build"] }
+            \cup (IF Deep THEN { [above |-> <<n>>, name |-> "ws"] : n \in SkipNames \cup EggInfo }
+                               \cup { [above |-> <<"plain3">>, name |-> n] : n \in {"env", ".venv", "node_modules", "x.egg-info", "site-packages", "target"} }
+                               \cup { [above |-> <<"build", "dist">>, name |-> "ws"], [above |-> <<"a", "site-packages", "b">>, name |-> "ws"] }
+                  ELSE {})
 
 \* fault modes: which path classes are made unreadable / invalid
 FaultModes == {"none", "nonutf8", "dangling"}
